@@ -304,7 +304,7 @@ Section Coerce.
   (** a literal that is neither null, a list nor an object, at a named type *)
   Definition coerce_leaf (l : lit) (n : name) : option cval :=
     match lookup n (types S) with
-    | Some (NScalar b _ _) => coerce_scalar n b l
+    | Some (NScalar b _ _ _) => coerce_scalar n b l
     | Some (NEnum vals _ _) =>
         match l with
         | LEnum e => match lookup e vals with Some v => Some (CGo (ev_value v)) | None => None end
@@ -533,7 +533,7 @@ Section Conforms.
         match strip_nn' t with
         | StNamed n =>
             match lookup n (types S) with
-            | Some (NScalar b _ _) => scalar_conforms n b v
+            | Some (NScalar b _ _ _) => scalar_conforms n b v
             | Some (NEnum vals _ _) =>
                 (* exactly one enum value has this Go value *)
                 Nat.eqb (List.length (filter (fun p => gval_scalar_eqb (ev_value (snd p)) v) vals)) 1
